@@ -88,7 +88,7 @@ __CPROVER_requires(ssl == &g_ssl && c == &g_c && g_c == g_body && len == g_len)
 __CPROVER_requires(c07_list_inv(PPRIO, PLEN, PSET))
 POSTS(ENSURES_CLAUSE)
 CANARY_CLAUSE(__CPROVER_return_value == (psSize_t) MATRIXSSL_ERROR)
-__CPROVER_assigns(g_c, g_ssl.supportedVersionsPeer, __CPROVER_object_whole(g_ssl.peerSupportedVersionsPriority), g_ssl.peerSupportedVersionsPriorityLen,
+__CPROVER_assigns(g_c, g_ssl.supportedVersionsPeer, g_ssl.peerSupportedVersionsPriority, g_ssl.peerSupportedVersionsPriorityLen,
                   g_ssl.extFlags, g_ssl.err)
 ;
 
